@@ -2,12 +2,12 @@
 from odfdo import Cell, Row, Table
 
 
-def mk(r0, c0):
+def mk(r0, c0, n=3):
     t = Table("t")
-    for base, rep in ((10, r0), (20, 3 - r0)):
+    for base, rep in ((10, r0), (20, n - r0)):
         row = Row()
         row.append_cell(Cell(base + 1, repeated=c0 if c0 > 1 else None), clone=False)
-        row.append_cell(Cell(base + 2, repeated=(3 - c0) if (3 - c0) > 1 else None), clone=False)
+        row.append_cell(Cell(base + 2, repeated=(n - c0) if (n - c0) > 1 else None), clone=False)
         if rep > 1:
             row.repeated = rep
         t.append_row(row, clone=False)
@@ -47,3 +47,38 @@ def span_area(x, y, z, t, r0=1, c0=1, **kw):
     if tab.del_span((x, y)) is not True or grid(tab) != g0:
         notes.append("del_span does not restore the table")
     return bool(notes), "; ".join(notes) or "span ok"
+
+
+def csv_rows(k1, rep, as_str, k0=0, **kw):
+    """real csv module: the exported text read back with csv.reader gives the values' CSV renderings"""
+    import csv
+    import io
+    from decimal import Decimal
+    vals = [0, False, "", " b ", None, Decimal("1.5"), 0.0]
+    v0, v1 = vals[k0], vals[k1]
+    t = Table("t")
+    r = Row()
+    r.append_cell(Cell(v0, repeated=rep if rep > 1 else None), clone=False)
+    r.append_cell(Cell(v1), clone=False)
+    t.append_row(r, clone=False)
+    r2 = Row()
+    r2.append_cell(Cell(v0), clone=False)
+    t.append_row(r2, clone=False)
+
+    def w(v):
+        if v is None:
+            return ""
+        if isinstance(v, str):
+            return v.strip()
+        if isinstance(v, bool):
+            return str(v)
+        return str(int(v)) if v == int(v) else str(v)
+
+    exp = [[w(v0)] * rep + [w(v1)], [w(v0)] + [""] * rep]
+    if as_str:
+        text = str(t)
+        got = [row for row in csv.reader(io.StringIO(text), delimiter=" ", quotechar='"', escapechar=chr(92), doublequote=False)]
+    else:
+        text = t.to_csv()
+        got = [row for row in csv.reader(io.StringIO(text))]
+    return got != exp, f"exported {text!r}: rows {got}, expected {exp}"
